@@ -4,7 +4,7 @@ Channel<T> validated against ChannelAbs (linearisability oracle) and Channel.tla
 import json
 import os
 
-from common import WORK, harness, scenario_of_line, write_replay
+from common import WORK, ToolError, harness, scenario_of_line, write_replay
 
 _STRENGTH = {"Relaxed": 0, "Acquire": 1, "Release": 1, "AcqRel": 2, "SeqCst": 3}
 
@@ -88,6 +88,49 @@ def classify_abs(tv, bound):
     if e in ("drop", "chan_drop"):
         return "C07"
     return "C06"
+
+
+def own_monitor(chk, module, inv, mconsts, name, args, abs_path, scheds, max_viol=3):
+    """TraceChannelCells.tla over the whole file; a violating run is reported, cut out, and the
+    validation resumes behind it."""
+    from common import scenario_of_line, strip_runs_through
+    import re
+    path = abs_path
+    for rnd in range(max_viol):
+        nm = "own_%s%s" % (name, "" if rnd == 0 else "_r%d" % rnd)
+        tv = chk.trace_validate(module, path, nm, constants=mconsts, invariants=[inv])
+        if tv.accepted:
+            chk.trace_events += tv.lines
+            return
+        if not tv.violation:
+            raise ToolError("%s could not follow %s" % (module, json.dumps(tv.rejected)))
+        at = tv.rejected_at or 1
+        n = scenario_of_line(path, at)
+        flags = ""
+        try:
+            out = open(os.path.join(WORK, "tlc_%s_%s" % (chk.pid, nm), "out.txt")).read()
+            m = re.findall(r"/\\ viol = (\{[^}]*\})", out)
+            flags = " ".join(m[-1].split()) if m else ""
+        except Exception:
+            pass
+        sched = scheds[n] if n is not None and 0 <= n < len(scheds) else ""
+        try:
+            with open(path) as f:
+                tv.rejected = json.loads(f.read().splitlines()[at - 1])
+        except Exception:
+            pass
+        rp = write_replay(chk.pid, "channel_own_%s_%s" % (name, n), {
+            "property": chk.pid, "kind": "real_execution_violates_" + module[:-4],
+            "component": "channel", "harness_args": [str(a) for a in args], "schedule": sched,
+            "flags": flags, "at_event": tv.rejected,
+            "replay": "harness channel %s --replay '%s'" % (" ".join(map(str, args)), sched)})
+        chk.violation("channel scenario %s run %s: %s %s at %s" % (name, n, tv.violation, flags,
+                                                                   json.dumps(tv.rejected)), rp)
+        nxt = "%s.own%d" % (abs_path, rnd + 1)
+        if strip_runs_through(path, at, nxt) <= 1:
+            return
+        path = nxt
+    chk.exhaustive = False
 
 
 def mc_configs(tier, slots):
@@ -216,6 +259,13 @@ def run_channel(chk, tier):
                 "replay": "harness channel %s --replay '%s'" % (" ".join(map(str, args)), sched)})
             chk.violation("channel scenario %s: real execution rejected by ChannelAbs at %s"
                           % (name, json.dumps(what)), path)
+        if pid == "C07":
+            # the C07-only monitor sees every run of the file, also those the oracle rejected early
+            own_monitor(chk, "TraceChannelCells.tla", "V_C07", dict(SLOTS=slots), name, args,
+                        abs_path, scheds)
+        if pid == "C08":
+            own_monitor(chk, "TraceChannelProgress.tla", "V_C08", dict(StepBound=bound), name, args,
+                        abs_path, scheds)
         if not stale:
             c = dict(tconsts)
             c.update(consts)
